@@ -67,4 +67,40 @@ theorem C01_model_is_a_function (cfg : Cfg) (n₁ n₂ : Node) (txs₁ txs₂ : 
     (hn : n₁ = n₂) (ht : txs₁ = txs₂) : execBlock cfg n₁ txs₁ = execBlock cfg n₂ txs₂ := by
   subst hn; subst ht; rfl
 
+/-! ### the executor's service cache -/
+open Bxh Bxh.Exec
+
+/-- the service record as the ledger has it -/
+def svcOfLedger (l : Led) (chain sid : String) : Option Svc :=
+  match l.getS (.svc chain sid) with
+  | some (.svc s) => some s
+  | _ => none
+
+/-- a cache is coherent with a ledger when every cached service record is the ledger's record -/
+def Coherent (l : Led) (cache : KV (String × String) Svc) : Prop :=
+  ∀ ch sid s, KV.get cache (ch, sid) = some s → l.getS (.svc ch sid) = some (.svc s)
+
+theorem getSvc_coherent (l : Led) (cache : KV (String × String) Svc) (h : Coherent l cache) (ch sid : String) :
+    getSvc l cache ch sid = svcOfLedger l ch sid := by
+  unfold getSvc svcOfLedger
+  cases hc : KV.get cache (ch, sid) with
+  | none => rfl
+  | some s => simp [h ch sid s hc]
+
+theorem checkTarget_coherent (env : Env) (l : Led) (src dst : SvcId) (h : Coherent l env.cache) :
+    checkTarget env l src dst = checkTarget { env with cache := [] } l src dst := by
+  unfold checkTarget isLocal
+  simp only [getSvc_coherent l env.cache h, getSvc_coherent l [] (fun _ _ _ hc => by simp [KV.get] at hc)]
+
+/-- **a coherent service cache is invisible**: whatever the executor has cached about services —
+everything after a long run, nothing after a restart — `checkIBTP` (the only reader of the cache)
+decides the same, as long as what is cached equals the ledger's records.  (That the real cache
+stays coherent is what the replica-with-restart run checks.) -/
+theorem C01_coherent_cache_invisible (env : Env) (l : Led) (i : Ibtp) (h : Coherent l env.cache) :
+    checkIBTP env l i = checkIBTP { env with cache := [] } l i := by
+  unfold checkIBTP
+  have hnil : Coherent l ([] : KV (String × String) Svc) := fun _ _ _ hc => by simp [KV.get] at hc
+  simp only [getSvc_coherent l env.cache h, getSvc_coherent l [] hnil, checkTarget_coherent env l _ _ h, isLocal]
+  rfl
+
 end Bxh.Props.C01
